@@ -94,3 +94,12 @@ def has_explicit_default(spec):
         elif v == 0:
             return True
     return False
+
+
+def scale_spec(rnd, vals=(0, 1, 2), count=None, maxcoord=None):
+    """A depth-1 spec well outside the enumerated scopes: 10-80 stored elements, coordinates up to a few hundred."""
+    count = count or rnd.randint(10, 80)
+    maxcoord = maxcoord or rnd.choice([count + 5, 2 * count, 150, 400, 700])
+    maxcoord = max(maxcoord, count + 1)
+    coords = rnd.sample(range(maxcoord), count)
+    return {c: rnd.choice(vals) for c in coords}, maxcoord
